@@ -282,6 +282,61 @@ func (p c16) whenSharedGrouping(c *core.Ctx) {
 	}
 }
 
+// whenVsParams: a condition is about the data, not about what the request selects of it: the operand of a when may be left out
+// of the answer by fields / fc.xfields / content / depth / with-defaults and is there all the same.
+func (p c16) whenVsParams(c *core.Ctx) {
+	body := "leaf z { type int32; } leaf st { config false; type int32; } leaf mode { type string; default \"auto\"; } container deep { leaf dz { type int32; } } " +
+		"leaf y3 { when \"z>5\"; type string; } leaf y2 { when \"st>5\"; type string; } leaf y { when \"mode='auto'\"; type string; } leaf yd { when \"deep/dz>5\"; type string; } " +
+		"container k { when \"../z>5\"; leaf k1 { type string; } } leaf q { type string; }"
+	m, err := parser.LoadModuleFromString(nil, "module m { namespace \"urn:m\"; prefix m; revision 2020-01-01; "+body+" }")
+	if err != nil {
+		c.Violate("when/load-error/params", "load: %v\n%s", err, body)
+		return
+	}
+	for _, big := range []bool{true, false} {
+		n := 1
+		if big {
+			n = 9
+		}
+		doc := fmt.Sprintf(`{"z":%d,"st":%d,"deep":{"dz":%d},"y3":"a","y2":"b","y":"c","yd":"d","k":{"k1":"e"},"q":"keep"}`, n, n, n)
+		for _, rq := range []struct {
+			params string
+			member string // what the request asks for and the condition decides about
+		}{{"fields=y3", "y3"}, {"fields=y2", "y2"}, {"fields=yd", "yd"}, {"fields=k", "k"}, {"fc.xfields=z", "y3"}, {"fc.xfields=deep", "yd"}, {"content=config", "y2"},
+			{"depth=1", "yd"}, {"with-defaults=trim", "y"}, {"fields=y3&content=config", "y3"}} {
+			c.Eval()
+			c.Shape("when-vs-params/%s/%v", rq.params, big)
+			src, _ := nodeutil.ReadJSON(doc)
+			var got string
+			var rerr error
+			if c.Guard("when vs params", func() {
+				sel, e := node.NewBrowser(m, src).Root().Find("?" + rq.params)
+				if e != nil || sel == nil {
+					rerr = fmt.Errorf("find: %v", e)
+					return
+				}
+				got, rerr = nodeutil.WriteJSON(sel)
+			}) {
+				continue
+			}
+			wit := fmt.Sprintf("schema: %s\ndata: %s\nrequest: ?%s\nanswer: %s", body, doc, rq.params, got)
+			var raw map[string]interface{}
+			if rerr != nil || jsonUnmarshal(got, &raw) != nil {
+				c.Violate("when/error/params", "read failed: %v\n%s", rerr, wit)
+				continue
+			}
+			_, has := raw[rq.member]
+			want := big
+			if rq.member == "y" {
+				want = true // mode is not set: its default is what the condition sees, trimmed from the answer or not
+			}
+			if has != want {
+				c.Violate("when/operand-hidden-by-request/"+strings.SplitN(rq.params, "=", 2)[0], "%s present=%v, want %v: the operand of its condition is in the data (only not in the answer)\n%s", rq.member, has, want, wit)
+			}
+		}
+	}
+}
+
 // whenCircular: conditions that depend on themselves, directly or through one another. What such a schema means is not the point; a
 // read of it ends (with data or with an error) and does not take the process down.
 func (p c16) whenCircular(c *core.Ctx) {
@@ -467,6 +522,9 @@ func (p c16) Run(c *core.Ctx, idx int) {
 	}
 	if idx%97 == 0 {
 		p.usesWhenOnContainer(c)
+	}
+	if idx%97 == 6 {
+		p.whenVsParams(c)
 	}
 	placement := []string{"when-container", "when-leaf", "when-leaf-list", "when-uses", "when-augment", "where-top", "where-nested", "filter", "when-edit", "when-list", "when-path"}[(idx/len(ts))%11]
 	ops := c16ops
